@@ -1,19 +1,22 @@
-"""Translator for C13: reads pox/datapaths/switch.py and pox/openflow/libopenflow_01.py with `ast` (never imports them) and
-emits lean/PoxModel/Generated/SwitchDispatch.lean:
+"""Translator for C13: emits lean/PoxModel/Generated/SwitchDispatch.lean — what the switch dispatches on NOW.
 
-  * `dispatch : Tables` — the four handler tables the constructor of SoftwareSwitchBase builds
-    (`ofp_handlers`, `stats_handlers`, `flow_mod_handlers`, `action_handlers`): for every code of the code→name map the
-    registration loop iterates over, the method `<prefix><lower-cased name>` if the class defines it (the loop's own rule;
-    the loop is pattern-checked, an unrecognised loop is an error, not a guess);
-  * `msgClasses` — the message classes of the library with their OFPT code and direction flags (class decorators);
-  * `statsRequestClasses` — the request body class registered per OFPST code;
-  * `handlerSummary` — per `_rx_*`/`_stats_*`/`_flow_mod_*` method: the library messages it constructs with the value
-    given for `xid`, the `send_error(type=, code=, ofp=)` triples, the number of `self.send(` calls;
-  * every integer constant of libopenflow_01 that the switch class mentions, as `def NAME : Nat`.
+Primary source (runtime probe): a child Python process with $POX_REPO on its path instantiates the real
+`pox.datapaths.switch.SoftwareSwitch` and reads the four handler tables the constructor built
+(`ofp_handlers`, `stats_handlers`, `flow_mod_handlers`, `action_handlers`: key -> name of the bound method) together with
+the library's class-level registries (`_message_type_to_class` with the direction flags, `_stats_type_to_class_info`) and
+its integer constants.  That is what the code does, whatever the shape of its source (helper functions, comprehensions,
+renamed locals do not matter).
 
-The model (Model/SwitchReq.lean) states the same data by hand; `Properties/C13.lean` proves them equal by `decide`, so a
-handler that is added, removed, renamed, re-registered under another code, stops copying the xid or changes an error
-code breaks the build of the property on the next run.
+Fallback (only if the probe cannot run): the former `ast` reading of the registration loops in
+`SoftwareSwitchBase.__init__` and of the class decorators of libopenflow_01.py; it recognises only the original loop shape
+and says so otherwise.
+
+Emitted: `dispatch : Tables`, `msgClasses`, `statsRequestClasses`, the constants as `def NAME : Nat`.
+The model (Model/SwitchReq.lean) states its own tables by hand; `Properties/C13.lean` proves by `decide` that they are
+equal, that every controller-to-switch type of the standard has a handler and which keys the tables have.  A handler
+that is removed, renamed, registered under another code or mapped to another method breaks the build of the property
+on the next run.  (What a handler SENDS is not read from the source any more — it is the business of the
+correspondence run and the oracle.)
 """
 import ast, os, re, sys
 
@@ -207,47 +210,6 @@ def build_table(loop, maps, methods, msg_classes, features_on):
     return sorted(rows)
 
 
-def summarise(fn):
-    """what a handler sends: library messages constructed (with their xid argument), send_error triples, send() calls"""
-    params = [a.arg for a in fn.args.args if a.arg != "self"]
-    req = params[0] if params else None
-    def norm(e):
-        s = ast.unparse(e)
-        if req:
-            s = re.sub(r"\b%s\b" % re.escape(req), "req", s)
-        return s
-    msgs, errs, sends = [], [], 0
-    for n in ast.walk(fn):
-        if not isinstance(n, ast.Call): continue
-        if isinstance(n.func, ast.Name) and re.fullmatch(r"ofp_\w+", n.func.id):
-            kws = {k.arg: k.value for k in n.keywords if k.arg}
-            if n.func.id in ("ofp_match",): continue
-            if "xid" in kws:
-                msgs.append("%s(xid=%s)" % (n.func.id, norm(kws["xid"])))
-            elif n.func.id.endswith(("_reply", "_hello", "_error")) or n.func.id in ("ofp_hello", "ofp_error"):
-                msgs.append("%s(xid=-)" % n.func.id)
-        if isinstance(n.func, ast.Attribute) and isinstance(n.func.value, ast.Name) and n.func.value.id == "self":
-            if n.func.attr == "send_error":
-                kws = {k.arg: k.value for k in n.keywords if k.arg}
-                errs.append("%s/%s/ofp=%s" % (norm(kws["type"]) if "type" in kws else "-", norm(kws["code"]) if "code" in kws else "-",
-                                              norm(kws["ofp"]) if "ofp" in kws else "-"))
-            elif n.func.attr == "send":
-                sends += 1
-            elif n.func.attr in ("send_hello",):
-                msgs.append("call:self.%s" % n.func.attr)
-    for n in ast.walk(fn):
-        if isinstance(n, ast.Assign) and len(n.targets) == 1 and isinstance(n.targets[0], ast.Attribute) and n.targets[0].attr == "xid":
-            msgs.append("xid:=%s" % norm(n.value))
-        if isinstance(n, ast.Return) and fn.name.startswith("_stats_"):
-            v = n.value
-            if v is None: r = "None"
-            elif isinstance(v, ast.Call): r = norm(v.func)
-            elif isinstance(v, ast.List): r = "[]" if not v.elts else "[...]"
-            else: r = norm(v)
-            msgs.append("return:%s" % r)
-    return sorted(msgs), sorted(errs), sends
-
-
 def lean_str(s):
     return '"' + s.replace("\\", "\\\\").replace('"', '\\"') + '"'
 
@@ -263,7 +225,54 @@ def lean_list(items, per_line=4, indent="    "):
     return "[" + (",\n" + indent).join(lines) + "]"
 
 
-def generate(repo):
+CONST_PREFIXES = ("OFPET_", "OFPBRC_", "OFPBAC_", "OFPFMFC_", "OFPPMFC_", "OFPQOFC_", "OFPP_", "OFPPC_", "OFPPS_", "OFPFF_", "OFPFC_",
+                  "OFPRR_", "OFPPR_", "OFPR_", "OFPC_FRAG_")
+CONST_NAMES = ("OFPQ_ALL", "TABLE_ALL", "NO_BUFFER", "OFPFW_ALL", "OFPPF_10MB_HD")
+
+PROBE = r"""
+import sys, json, logging, unittest          # unittest first: pox.core then creates a core object on import
+logging.disable(logging.CRITICAL)
+import contextlib, io
+with contextlib.redirect_stdout(io.StringIO()):
+    import pox.core
+    import pox.openflow.libopenflow_01 as of
+    from pox.datapaths.switch import SoftwareSwitch
+    sw = SoftwareSwitch(dpid=1, ports=0)
+def name(h):
+    n = getattr(h, "__name__", None)
+    if n is None or getattr(h, "__self__", None) is not sw:
+        return "?" + (n or type(h).__name__)            # not a method of this switch: shows up as a table mismatch
+    return n
+out = {"tables": {}}
+for attr in ("ofp_handlers", "stats_handlers", "flow_mod_handlers", "action_handlers"):
+    out["tables"][attr] = sorted([int(k), name(h)] for k, h in getattr(sw, attr).items())
+out["msg_classes"] = sorted([c.__name__, int(t), bool(getattr(c, "_from_controller", False)), bool(getattr(c, "_from_switch", False))]
+                            for t, c in of._message_type_to_class.items())
+out["stats_req"] = sorted([int(t), i.request.__name__] for t, i in of._stats_type_to_class_info.items()
+                          if isinstance(t, int) and i.request is not None)
+out["consts"] = {k: v for k, v in vars(of).items() if k.isupper() and type(v) is int and v >= 0}
+sys.stdout.write("PROBE-JSON:" + json.dumps(out))
+"""
+
+
+def probe(repo):
+    """ask the code itself (child process, so that nothing of it is imported here)"""
+    import subprocess, json
+    env = dict(os.environ, PYTHONPATH=repo, PYTHONHASHSEED="0", PYTHONDONTWRITEBYTECODE="1")
+    p = subprocess.run([sys.executable, "-c", PROBE], env=env, cwd="/tmp", stdout=subprocess.PIPE, stderr=subprocess.PIPE, text=True, timeout=120)
+    mark = p.stdout.rfind("PROBE-JSON:")
+    if p.returncode != 0 or mark < 0:
+        raise Untranslatable("runtime probe failed: %s" % (p.stderr.strip().splitlines()[-1:] or [p.returncode]))
+    d = json.loads(p.stdout[mark + len("PROBE-JSON:"):])
+    t = d["tables"]
+    tables = {"rx": [tuple(x) for x in t["ofp_handlers"]], "stats": [tuple(x) for x in t["stats_handlers"]],
+              "flowMod": [tuple(x) for x in t["flow_mod_handlers"]], "action": [tuple(x) for x in t["action_handlers"]]}
+    msg_classes = sorted((tuple(x) for x in d["msg_classes"]), key=lambda c: (c[1], c[0]))
+    return tables, msg_classes, [tuple(x) for x in d["stats_req"]], d["consts"], "runtime probe of SoftwareSwitch(dpid=1, ports=0)"
+
+
+def from_source(repo):
+    """fallback: the registration loops and decorators as written"""
     consts, maps, msg_classes, stats_req = read_library(repo)
     classes, methods, init = read_switch(repo)
     loops = registration_loops(init)
@@ -272,23 +281,22 @@ def generate(repo):
         if t not in loops: raise Untranslatable("constructor no longer builds self.%s with the known loop" % t)
     feats = default_features(init)
     tables = {lean: build_table(loops[t], maps, methods, msg_classes, feats) for t, lean in need.items()}
-    pfx = {loops[t][3] for t in need}
-    handler_names = sorted(n for n in methods if any(n.startswith(p) for p in ("_rx_", "_stats_", "_flow_mod_")) or n in ("send_hello", "send_error"))
-    summary = [(n,) + summarise(methods[n]) for n in handler_names]
-    # constants the switch classes mention
-    used = set()
-    for c in SWITCH_CLASSES:
-        for n in ast.walk(classes[c]):
-            if isinstance(n, ast.Name) and n.id in consts and n.id.isupper():
-                used.add(n.id)
-    used |= {"OFPP_MAX", "OFPP_NONE", "OFPP_ALL", "OFPP_CONTROLLER", "OFPP_TABLE", "OFPQ_ALL", "TABLE_ALL", "NO_BUFFER"} & set(consts)
-    used |= {k for k in consts if k.startswith(("OFPET_", "OFPBRC_", "OFPBAC_", "OFPFMFC_", "OFPPMFC_", "OFPQOFC_"))}     # every error type/code of the library
-    neg = [k for k in used if consts[k] < 0]
-    if neg: raise Untranslatable("negative constant %s" % neg)
+    return tables, msg_classes, stats_req, consts, "ast reading of the source (runtime probe unavailable)"
+
+
+def generate(repo):
+    try:
+        tables, msg_classes, stats_req, consts, how = probe(repo)
+    except Exception as e:
+        try:
+            tables, msg_classes, stats_req, consts, how = from_source(repo)
+        except Exception as e2:
+            raise Untranslatable("%s; source fallback: %s" % (e, e2))
+    used = {k for k in consts if (k.startswith(CONST_PREFIXES) or k in CONST_NAMES) and re.fullmatch(r"[A-Z][A-Z0-9_]*", k) and consts[k] >= 0}
 
     L = []
     L.append("/-! GENERATED by harness/translate/dispatch_tables.py from %s and %s — do not edit.\n"
-             "    Handler tables of SoftwareSwitchBase.__init__, message classes, handler send summaries, constants. -/" % (SWITCH, LIBOF))
+             "    Handler tables of the switch object, message classes, stats request classes, constants (%s). -/" % (SWITCH, LIBOF, how))
     L.append("namespace Pox.Generated.SwitchDispatch\n")
     L.append("/-- code ↦ method name, sorted by code: `ofp_handlers`, `stats_handlers`, `flow_mod_handlers`, `action_handlers` -/")
     L.append("structure Tables where\n  rx : List (Nat × String)\n  stats : List (Nat × String)\n  flowMod : List (Nat × String)\n  action : List (Nat × String)\n  deriving DecidableEq, Repr\n")
@@ -298,13 +306,9 @@ def generate(repo):
     L.append("")
     L.append("/-- (class, OFPT code, from_controller, from_switch) of every message class, sorted by code -/")
     L.append("def msgClasses : List (String × Nat × Bool × Bool) :=\n  %s\n" % lean_list(
-        ["(%s, %d, %s, %s)" % (lean_str(n), c, str(fc).lower(), str(fs).lower()) for n, c, fc, fs in msg_classes], 2, "   "))
+        ["(%s, %d, %s, %s)" % (lean_str(n), c, str(bool(fc)).lower(), str(bool(fs)).lower()) for n, c, fc, fs in msg_classes], 2, "   "))
     L.append("/-- (OFPST code, request body class) -/")
     L.append("def statsRequestClasses : List (Nat × String) :=\n  %s\n" % lean_list(["(%d, %s)" % (c, lean_str(n)) for c, n in stats_req], 3, "   "))
-    L.append("/-- (handler, messages constructed with their xid argument, send_error type/code/ofp, number of self.send calls) -/")
-    L.append("def handlerSummary : List (String × List String × List String × Nat) :=\n  %s\n" % lean_list(
-        ["(%s, %s, %s, %d)" % (lean_str(n), lean_list([lean_str(x) for x in ms], 3, "      "), lean_list([lean_str(x) for x in es], 1, "      "), s)
-         for n, ms, es, s in summary], 1, "   "))
     for k in sorted(used):
         L.append("def %s : Nat := %d" % (k, consts[k]))
     L.append("\nend Pox.Generated.SwitchDispatch\n")
